@@ -270,3 +270,5 @@ static uint8_t vf_what_text[] = "exception";
 void *X__ZNKSt13runtime_error4whatEv(void *self) { (void)self; return vf_what_text; }
 void *X__ZNKSt11logic_error4whatEv(void *self) { (void)self; return vf_what_text; }
 void *X__ZNKSt9exception4whatEv(void *self) { (void)self; return vf_what_text; }
+void X__ZNSt7__cxx1112basic_stringIcSt11char_traitsIcESaIcEED2Ev(void *s) { str_dispose(s); }
+void X__ZNSt7__cxx1112basic_stringIcSt11char_traitsIcESaIcEED1Ev(void *s) { str_dispose(s); }
